@@ -550,3 +550,14 @@ def check_certificates(state, certs, backends=("z3",), timeout_s=60):
             res["z3cli"] = (out, round(dt, 3))
         res["_sample_script_head"] = script[:400]
     return res
+
+
+def range_oracle(state, x, m):
+    """Do the hypotheses and the path condition imply 0 <= x < m?  (angle-unit reading; used to keep x % m == x)"""
+    goal = ("and", ("le", -x), ("lt", x - m))
+    if not homogeneous_angle_query(state, goal):
+        return False
+    try:
+        return check_sat_homogeneous(state, goal, 1000) == "unsat"
+    except Exception:      # noqa: BLE001
+        return False
